@@ -677,7 +677,11 @@ class PrecipitateBase(GenericModel):
                 if self.betaFuncType == 1:
                     beta = nucfuncs.betaBinary1(self.therm, xComp, T, Rcrit, self.matrixParameters, precParams, self.removeCache)
                 else:
-                    beta = nucfuncs.betaBinary2(self.therm, xComp, T, Rcrit, self.matrixParameters, precParams, Y.xEqAlpha[0], Y.xEqBeta[0], self.removeCache)
+                    #Interfacial compositions of this phase from the last growth rate calculation (not available yet during setup)
+                    xEqAlpha, xEqBeta = Y.xEqAlpha[0,p], Y.xEqBeta[0,p]
+                    if not np.any(xEqAlpha):
+                        xEqAlpha, xEqBeta = None, None
+                    beta = nucfuncs.betaBinary2(self.therm, xComp, T, Rcrit, self.matrixParameters, precParams, xEqAlpha, xEqBeta, self.removeCache)
             else:
                 beta = nucfuncs.betaMulti(self.therm, xComp, T, Rcrit, self.matrixParameters, precParams, self.removeCache, searchDir=self._precBetaTemp[p])
             
